@@ -202,7 +202,16 @@ impl Monitor for C06 {
                     continue;
                 }
             }
-            let pre_n = *r.pick(&[0usize, 0, 1, 3, 4, 17, 300, 4096]);
+            let mut pre_n = *r.pick(&[0usize, 0, 1, 3, 4, 17, 300, 4096]);
+            if r.chance(1, 6) {
+                // directed alignment: the wrapper's two signature bytes sit on or next to a multiple of 64 KiB
+                // (the last byte of one buffer-sized window and the first byte of the next, and neighbours)
+                let sig_off = if w == 3 { off + 4 } else { 0 };
+                let t = (1 + r.usize_below(2)) * 65536;
+                let d = *r.pick(&[1usize, 1, 1, 0, 2, 3]);
+                pre_n = (t - d).saturating_sub(sig_off);
+                ctx.count("directed:signature_next_to_64k_multiple");
+            }
             let pre = wrap::junk(&mut r, pre_n, hostile);
             let suf_n = *r.pick(&[0usize, 0, 1, 8, 100, 4096]);
             let mut suf = wrap::junk(&mut r, suf_n, hostile);
